@@ -18,6 +18,7 @@ type record struct {
 var sanitizer = strings.NewReplacer(
 	"\n", ``,
 	"\r", ``,
+	"\t", ``,
 )
 
 var escaper = strings.NewReplacer(
